@@ -8,6 +8,7 @@ CONSTANTS
   ResetMax = 1
   ErrorResetMax = 2
   LazyClient = FALSE
+  OldPushBugs = FALSE
   OldIdleCheck = FALSE
   NPeer = 6
   NAppX = 4
